@@ -203,7 +203,16 @@ async fn episode(p: &EpParams, mt: bool) -> EpReport {
         }
     } else {
         w.settle().await;
-        w.advance(Duration::from_secs(301)).await;
+        // half-way through the blocking pulls' wait: wake-ups that bring nothing (empty publishes)
+        // must not extend the 5-minute limit
+        w.advance(Duration::from_secs(150)).await;
+        if !with_delete_topic {
+            for _ in 0..4 {
+                let _ = Cx::new(&w, 6).publish(&t, &[]).await;
+            }
+            rep.inc("empty_wakeups_mid_wait");
+        }
+        w.advance(Duration::from_secs(151)).await;
         w.settle().await;
         let mut pending_pulls = 0;
         for (k, _, h) in &tasks {
